@@ -125,6 +125,18 @@ def body_under(case):
             X, Bp = lsq_linear_underdetermined(sv.A, B, W=(None if W is None else w), underdetermined_opt=arg, l2_eps=eps, return_pred=True, **sv.kwargs())
     X, Bp = np.asarray(X), np.asarray(Bp)
     solves = hooks.events("solve")
+    # whole-number targets (counts) that are still inside the gamut: the int64 array gets the fit of the same numbers as floats
+    whole = np.round(B)
+    twin_done = False
+    if all((lambda t: t is not None and t >= 1e-6)(lp_margin(sv.Ap, sv.basep, sv.lb, sv.ub, r)) for r in whole):
+        from dreye.api.optimize.lsq_linear import lsq_linear_underdetermined as _under
+
+        with calling(f"fit_underdetermined({kind}) of whole-number targets (int64 / float64)"):
+            Xi = np.asarray(_under(sv.A, whole.astype(np.int64), W=(None if W is None else w), underdetermined_opt=arg, l2_eps=eps, **sv.kwargs()))
+            Xf = np.asarray(_under(sv.A, whole.copy(), W=(None if W is None else w), underdetermined_opt=arg, l2_eps=eps, **sv.kwargs()))
+        twin_done = True
+        check(Xi.shape == Xf.shape and np.all(np.abs(Xi - Xf) <= 1e-6 * float(np.max(sv.ub - sv.lb))), "under:integer-targets-differ",
+              f"targets {whole.tolist()} as an int64 array give {Xi.tolist()}, as floats {Xf.tolist()} (option {kind})")
     scs_fallback = (not hooks.available()) or any(e.get("solver") == "SCS" and e.get("status") == "optimal_inaccurate" for e in solves)
     check(X.shape == (B.shape[0], sv.n) and Bp.shape == B.shape, "under:shape", f"{X.shape} {Bp.shape}")
     rng = sv.ub - sv.lb
@@ -136,7 +148,7 @@ def body_under(case):
     if kind not in ("min", "max"):
         pairs = rows_sharing_a_solution(B, X, sv.lb, sv.ub, sv.Ap, scale=sv.extent)
         check(not pairs, "under:rows-share-a-solution", f"rows {pairs} have different targets but bit-identical intensities (option {kind})")
-    labs = sv.labels() + [f"opt:{kind}", f"entry:{case['entry']}", "W" if W is not None else "noW"] + (["ramp-rows"] if any("ramp" in r["kind"] for r in case["rows"]) else []) + (["proportional-sources"] if case.get("proportional") else [])
+    labs = sv.labels() + [f"opt:{kind}", f"entry:{case['entry']}", "W" if W is not None else "noW"] + (["ramp-rows"] if any("ramp" in r["kind"] for r in case["rows"]) else []) + (["proportional-sources"] if case.get("proportional") else []) + (["whole-number-twin"] if twin_done else [])
     goal = goal_fn(kind, opt)
     for i, b in enumerate(B):
         res = float(np.linalg.norm(w * (model[i] - b)))
